@@ -13,7 +13,10 @@ Sub-checks
              value, reference value, array size)
   files      compile_file / #pragma include structures in a scratch
              directory: chains, sub directories, missing, self and mutually
-             including files, search path dependencies, non-UTF-8 bytes
+             including files, search path dependencies, non-UTF-8 bytes;
+             include graphs (chain, self, mutual, longer cycle, chain into a
+             cycle) over several directories whose edges and top-level name
+             resolve directly or only through the search path (find_mof)
   repofault  (exhaustive) a repository connection that answers the k-th
              call of an operation with CIMError(code): every single fault
              (9 operations x k 1..6 x codes 1..28 x 5 units x 2 namespaces)
@@ -64,7 +67,9 @@ RULE = (
     "20 % of the cases are st.text, MOF-alphabet text, token soup or "
     "decoded bytes instead; typed: "
     "every (place, declared type, scalar/array, literal kind) combination, "
-    "enumerated completely; files: include/search-path structures with one "
+    "enumerated completely; files: include/search-path structures (incl. "
+    "include graphs over several directories whose edges and top-level name "
+    "resolve directly or only through find_mof()) with one "
     "syntax-mutated file; repofault: valid units against a repository stub "
     "raising CIMError(code 1..28) at the k-th call (k 1..6) of each of 9 "
     "operations, all single faults and recovery-path pairs, enumerated "
@@ -138,6 +143,10 @@ SENSITIVITY = [
     "MOFParseError",
     "compile_string keeps the previous target_namespace -> strings/reuse:"
     "check-unit-result-differs-after-MOFCompileError",
+    "compile_file: include-cycle check moved before the search path "
+    "resolution of the file name (seeded change2) -> files/leak:"
+    "RecursionError:include-cycle (missed at first: all generated includes "
+    "resolved directly; the searchgraph structure was added)",
 ]
 
 TIMEOUT = 10
@@ -1337,7 +1346,72 @@ def _file_unit(draw, prefix, with_prelude, includes):
 
 STRUCTURES = ['single', 'chain', 'subdir', 'missing', 'self', 'mutual',
               'directory', 'searchdep', 'nonutf8', 'bom', 'crlf',
-              'top-missing', 'string-include']
+              'top-missing', 'string-include', 'searchgraph', 'searchgraph',
+              'searchgraph']
+
+
+def _search_graph(draw):
+    """
+    Include graph whose members live in different directories: n files
+    d<i>/n<i>.mof, file i includes file i+1, the last one includes nothing
+    (chain) or an earlier one (self, mutual, longer cycle, chain that runs
+    into a cycle).  Every edge is written either as a relative path that
+    exists as seen from the including file ('direct') or as a name that does
+    not exist there and is found only by find_mof() in the search path
+    ('search': the bare file name, or the name under a directory that does
+    not exist).  The top-level file name may itself be one that only the
+    search path resolves.  Returns (files, top, search_dirs, info).
+    """
+    n = _int(draw, 1, 4)
+    shape = _pick(draw, ['chain', 'cycle', 'cycle', 'cycle', 'rho'])
+    same_dir = _chance(draw, 15)   # all in one directory: bare names direct
+    dirs = ['d0' if same_dir else 'd%d' % i for i in range(n)]
+    names = ['n%d.mof' % i for i in range(n)]
+    if shape == 'chain':
+        back = None
+    elif shape == 'cycle':
+        back = 0
+    else:
+        back = _int(draw, 0, n - 1)
+    edges = [(i, i + 1) for i in range(n - 1)]
+    if back is not None:
+        edges.append((n - 1, back))
+    modes = []
+    files = {}
+    incs = {i: [] for i in range(n)}
+    for src, dst in edges:
+        mode = _pick(draw, ['search', 'search', 'direct', 'search-nodir'])
+        if mode == 'direct' or (mode == 'search' and dirs[src] == dirs[dst]):
+            mode = 'direct'
+            ref = names[dst] if dirs[src] == dirs[dst] else \
+                '../%s/%s' % (dirs[dst], names[dst])
+        elif mode == 'search':
+            ref = names[dst]
+        else:
+            ref = 'nowhere/' + names[dst]
+        modes.append(mode)
+        incs[src].append(ref)
+    for i in range(n):
+        files['%s/%s' % (dirs[i], names[i])] = _file_unit(
+            draw, 'S%d' % i, i == n - 1, incs[i])
+    k = _int(draw, 0, 2)
+    if k == 0:
+        top = '%s/%s' % (dirs[0], names[0])
+        topmode = 'direct'
+    elif k == 1:
+        top = 'nowhere/' + names[0]      # resolved through the search path
+        topmode = 'search'
+    else:
+        top = names[0].upper()           # find_mof() ignores case
+        topmode = 'search'
+    search_dirs = [''] if _chance(draw, 40) else sorted(set(dirs))
+    if _chance(draw, 30):
+        search_dirs = list(reversed(search_dirs))
+    info = 'searchgraph:%s:%s:top-%s' % (
+        'cyclic' if back is not None else 'acyclic',
+        'search-edge' if any(m != 'direct' for m in modes) else
+        'direct-edges', topmode)
+    return files, top, search_dirs, info
 
 
 @st.composite
@@ -1396,9 +1470,14 @@ def files_strategy(draw):
         search = _chance(draw, 50)
         files[top] = _file_unit(draw, 'F0', False, ['inc1.mof'])
         files['inc1.mof'] = _file_unit(draw, 'F1', True, [])
+    search_dirs = None
+    info = None
+    if s == 'searchgraph':
+        files, top, search_dirs, info = _search_graph(draw)
+        search = True
     faulty = None
     muts = ()
-    if _chance(draw, 70):
+    if _chance(draw, 30 if s == 'searchgraph' else 70):
         faulty = _pick(draw, sorted(files))
         files[faulty], muts = g_mutated_text(draw, files[faulty],
                                              SYNTAX_MUTATIONS)
@@ -1417,8 +1496,12 @@ def files_strategy(draw):
         enc[name] = data
     if s == 'top-missing':
         enc = {}
-    return dict(structure=s, files=enc, top=top, search=search, entry=entry,
-                faulty=faulty, muts=muts, ns=_pick(draw, _NAMESPACES))
+    ex = dict(structure=s, files=enc, top=top, search=search, entry=entry,
+              faulty=faulty, muts=muts, ns=_pick(draw, _NAMESPACES))
+    if search_dirs is not None:
+        ex['search_dirs'] = search_dirs
+        ex['info'] = info
+    return ex
 
 
 def files_oracle(ctx, ex):
@@ -1443,7 +1526,12 @@ def files_oracle(ctx, ex):
                 cands[os.path.normpath(path)] = txt
                 anytext.append(txt)
         top = os.path.join(tmp, ex['top'])
-        comp = new_compiler(search_paths=[tmp] if ex['search'] else None)
+        if ex.get('search_dirs') is not None:
+            spaths = [os.path.join(tmp, d) if d else tmp
+                      for d in ex['search_dirs']]
+        else:
+            spaths = [tmp] if ex['search'] else None
+        comp = new_compiler(search_paths=spaths)
         alltext = '\n'.join(anytext)
         if ex['entry'] == 'string':
             text = cands.get(os.path.normpath(top), "#pragma include (\"top.mof\")\n")
@@ -1463,12 +1551,14 @@ def files_oracle(ctx, ex):
         os.chdir(cwd)
         shutil.rmtree(tmp, ignore_errors=True)
     muts = [m for m in ex['muts'] if m != 'odd-seps']
+    info = ex.get('info')
     ctx.case(nontrivial=bool(muts) or ex['structure'] in
              ('missing', 'self', 'mutual', 'directory', 'nonutf8',
-              'top-missing'),
+              'top-missing') or bool(info and ':cyclic:' in info),
              classes=classes + ['structure:' + ex['structure'],
                                 'entry:' + ex['entry'],
-                                'fault:' + ('yes' if ex['faulty'] else 'no')])
+                                'fault:' + ('yes' if ex['faulty'] else 'no')]
+             + ([info] if info else []))
 
 
 # ---------------------------------------------------------------------------
